@@ -338,6 +338,11 @@ class BaseSection(base.Sectionable):
             self._parent.remove(self)
             self._parent = None
         elif self._validate_parent(new_parent):
+            if new_parent is not self._parent:
+                # Refuse before the object is removed from its current parent.
+                if self.name in new_parent.sections:
+                    raise KeyError("Object with the same name already exists! " + str(self))
+                new_parent._check_no_cycle(self)
             if self._parent is not None:
                 self._parent.remove(self)
             self._parent = new_parent
